@@ -179,7 +179,7 @@ def encode(doc):
 
 # ------------------------------------------------------------------ valid documents
 ID_ALPHA = "abcdefghijklmnopqrstuvwxyzABCDEFGHIJKLMNOPQRSTUVWXYZ0123456789_-."
-ODD_IDS = ["id", "value", "number", "yes", "null", "~", "0x10", "12", "a b", "x: y", "#c", "-", "[x]", "ä", "it's", 'q"q', "", " lead", "trail ", "initial", "boards", "a\\b"]
+ODD_IDS = ["id", "value", "number", "yes", "null", "~", "0x10", "12", "a b", "x: y", "#c", "-", "[x]", "ä", "it's", 'q"q', "", " lead", "trail ", "initial", "boards", "a\\b", "%s%s%s%s", "%n", "100%d", "%08x%08x%p", "%"]
 
 class Names:
     def __init__(self, r): self.r = r; self.used = set()
